@@ -28,12 +28,12 @@ GMP = {
     ("z_number", "operator+="): {"z_add"}, ("z_number", "operator-="): {"z_sub"}, ("z_number", "operator*="): {"z_mul"},
     ("z_number", "operator/="): {"z_tdiv_q"}, ("z_number", "operator%="): {"z_tdiv_r"},
     ("z_number", "operator&"): {"z_and"}, ("z_number", "operator|"): {"z_ior"}, ("z_number", "operator^"): {"z_xor"},
-    ("z_number", "operator<<"): {"z_mul_2exp", "z_get_ui"}, ("z_number", "operator>>"): {"z_fdiv_q_2exp", "z_get_ui"},
+    ("z_number", "operator<<"): {"z_mul_2exp", "z_get_ui", "z_fits_ulong_p"}, ("z_number", "operator>>"): {"z_fdiv_q_2exp", "z_get_ui", "z_fits_ulong_p"},
     ("z_number", "operator++", 0): {"z_add_ui"}, ("z_number", "operator--", 0): {"z_sub_ui"},
     ("q_number", "operator+"): {"q_add"}, ("q_number", "operator-", 1): {"q_sub"}, ("q_number", "operator-", 0): {"q_neg"},
     ("q_number", "operator*"): {"q_mul"}, ("q_number", "operator/"): {"q_div"},
     ("q_number", "operator+="): {"q_add"}, ("q_number", "operator-="): {"q_sub"}, ("q_number", "operator*="): {"q_mul"},
-    ("q_number", "operator/="): {"q_div"}, ("q_number", "operator<<"): {"q_mul_2exp", "z_get_ui"},
+    ("q_number", "operator/="): {"q_div"}, ("q_number", "operator<<"): {"q_mul_2exp", "z_get_ui", "z_fits_ulong_p"},
 }
 CMP = {"operator==": "==", "operator<": "<", "operator<=": "<=", "operator>": ">", "operator>=": ">="}
 IGNORE = ("_init", "_clear", "z_set", "q_set", "q_canonicalize", "z_init_set", "_get_memory_functions")
@@ -631,3 +631,55 @@ def r8_no_zero_coefficient(ctx):
 
 
 RULES += [r8_no_zero_coefficient]
+
+
+
+def r9_narrowing_conversions(ctx):
+    ctx.rule("C20.r9", "big numbers: mpz_get_ui applied to an OPERAND (it returns the low 64 bits of the absolute value) is reached only "
+             "where mpz_fits_ulong_p of the same operand holds and its sign was tested - otherwise 1000 >> -1 is 500 and "
+             "1000 >> (2^64+1) is 500", floor=3)
+    fs = ctx.db.fns(BIG)
+    n = 0
+    for fn in fs:
+        cls = (fn.get("cpk") or "").split("::")[-1]
+        if cls not in ("z_number", "q_number"):
+            continue
+        body = fn["body"]
+        g = None
+        for nm, c in _gmp_calls(fn):
+            if nm != "z_get_ui":
+                continue
+            if g is None:
+                g = paths.guards(body)
+            n += 1
+            arg = src(c["a"][0]) if c.get("a") else ""
+
+            def fits(x, arg=arg):
+                x = strip(x)
+                if isinstance(x, dict) and x.get("k") == "call" and callee(x) and callee(x)["name"] == "__gmpz_fits_ulong_p" and x.get("a") and \
+                        src(x["a"][0]) == arg:
+                    return 1
+                return 0
+
+            def negative(x, arg=arg):
+                # mpz_sgn is a macro:  ((z)->_mp_size < 0 ? -1 : (z)->_mp_size > 0)  compared with 0
+                x = strip(x)
+                p = cmp_parts(x)
+                if p and p[0] == "<" and "_mp_size" in src(p[1]) and arg.split("->")[0].split(".")[0] in src(p[1]) and _lit(p[2]) == 0:
+                    return 1
+                return 0
+            gs = g.get(id(c), ())
+            f_ok = guard_truth(gs, fits, body) is True
+            s_ok = guard_truth(gs, negative, body) is False
+            if f_ok and s_ok:
+                ctx.ok("%s::%s: mpz_get_ui(%s) under fits_ulong and a sign test" % (cls, fn["name"], arg[:20]), fn, c)
+            else:
+                ctx.bad("%s::%s converts `%s` with mpz_get_ui without %s: the low 64 bits of the absolute value are used as the amount "
+                        "(1000 >> -1 = 500, 1000 >> (2^64+1) = 500)" %
+                        (cls, fn["name"], arg[:30], "mpz_fits_ulong_p" if not f_ok else "a sign test"), fn, c,
+                        sig="get-ui-unchecked:%s::%s" % (cls, fn["name"]))
+    if n == 0:
+        ctx.fail("rule C20.r9: no mpz_get_ui found in lib/bignums.cpp")
+
+
+RULES += [r9_narrowing_conversions]
